@@ -53,7 +53,6 @@ func runC08(c *Ctx, r *Report) {
 	r.Rule("C08/own-id", "sendRPC polls for the id of the message it serialised; getMessage looks up and deletes exactly its key; the reader files a reply under the id extracted from that buffer before clearing it", 4)
 	r.Rule("C08/echo-keeps-rest", "on recognising its echoed request the reader keeps everything after the first delimiter (split limit 2, element 1)", 1)
 	r.Rule("C08/echo-remainder-examined", "what remains in the buffer after the echo was trimmed off is tested for a complete message -- and for being an echo itself -- before the next read is appended", 2)
-	r.Rule("C08/scan-every-pass", "every pass of the NETCONF read loop tests the buffer for a complete message", 1)
 	r.Rule("C08/id-pattern", "the message-id pattern binds its capture to the first message-id attribute of the buffer (no greedy wildcard before the capture)", 1)
 	r.Rule("C08/store-locked", "every access to the message and subscription stores holds its mutex", 6)
 
@@ -73,7 +72,6 @@ func runC08(c *Ctx, r *Report) {
 	}
 	checkEchoKeepsRest(c, r, read)
 	checkIDPattern(c, r)
-	checkNetconfScanEveryPass(c, r, read)
 	initID := c.LookupConst("driver/netconf", "initialMessageID")
 
 	// ---- writers of the counter
